@@ -13,20 +13,21 @@ use std::sync::{Arc, Mutex};
 fn arr32(v: &[u8]) -> [u8; 32] { let mut a = [0u8; 32]; a.copy_from_slice(v); a }
 
 #[derive(Clone)]
-enum U { Reg { app: Vec<u8>, chal: Vec<u8>, handle: Vec<u8> }, Auth { app: Vec<u8>, chal: Vec<u8>, handle: Vec<u8>, counter: u32, presence: u8, param: u8 } }
+pub enum U { Reg { app: Vec<u8>, chal: Vec<u8>, handle: Vec<u8>, fault: Option<u8> }, Auth { app: Vec<u8>, chal: Vec<u8>, handle: Vec<u8>, counter: u32, presence: u8, param: u8, fault: Option<u8> } }
 
-fn run<S: Inner + 'static>(ctx: &mut Ctx, kind: Kind, inner: S, ops: &[U]) {
+fn run<S: Inner + 'static>(ctx: &mut Ctx, prop: &str, kind: Kind, inner: S, ops: &[U]) {
     let log = new_log();
     let uvst = Arc::new(Mutex::new(UvState::ok()));
     let store = RecStore::new(inner, log.clone());
     let mut auth = Authenticator::new(Aaguid::from(crate::util::AAGUID), store, SharedUv { st: uvst, log: log.clone(), yields: false });
-    ctx.line(&format!("au.reset C17 {} 1 16 none", kind.name()), "");
+    ctx.line(&format!("au.reset {} {} 1 16 none", prop, kind.name()), "");
     for op in ops {
         *auth.store_mut().calls.lock().unwrap() = 0;
         *auth.store_mut().last_saved.lock().unwrap() = None;
         log.lock().unwrap().clear();
         match op {
-            U::Reg { app, chal, handle } => {
+            U::Reg { app, chal, handle, fault } => {
+                auth.store_mut().faults = vec![*fault];
                 let req = RegisterRequest { challenge: arr32(chal), application: arr32(app) };
                 let res = guarded(|| block_on(U2fApi::register(&mut auth, req, handle)));
                 let draws = auth.store().last_saved.lock().unwrap().clone().map(|p: Passkey| { let (d, x, y) = key_parts(&p); format!("{}:{}:{}", hexf(&d), hexf(&x), hexf(&y)) }).unwrap_or("N".into());
@@ -34,27 +35,48 @@ fn run<S: Inner + 'static>(ctx: &mut Ctx, kind: Kind, inner: S, ops: &[U]) {
                     Some(Ok(r)) => { let (x, y, h, c, s) = (r.public_key.x.to_vec(), r.public_key.y.to_vec(), r.key_handle.clone(), r.attestation_certificate.clone(), r.signature.clone());
                         format!("ok:{}:{}:{}:{}:{}:{}", hexf(&x), hexf(&y), hexf(&h), hexf(&c), hexf(&s), hexf(&r.encode())) } };
                 ctx.stat(&format!("u2f.reg.{}", rs.split(':').next().unwrap()));
-                ctx.line(&format!("u2f.reg {} {} {} {}", hexf(app), hexf(chal), hexf(handle), draws), &format!("res={} store={}", rs, snap_pub(&auth.store().inner.all())));
+                ctx.line(&format!("u2f.reg {} {} {} {} {}", hexf(app), hexf(chal), hexf(handle), draws, faults_pub(&[*fault])), &format!("res={} store={}", rs, snap_pub(&auth.store().inner.all())));
             }
-            U::Auth { app, chal, handle, counter, presence, param } => {
+            U::Auth { app, chal, handle, counter, presence, param, fault } => {
+                auth.store_mut().faults = vec![*fault];
                 let req = AuthenticationRequest { parameter: AuthenticationParameter::from(*param), challenge: arr32(chal), application: arr32(app), key_handle: handle.clone() };
                 let flags = Flags::from_bits_truncate(*presence);
                 let res = guarded(|| block_on(U2fApi::authenticate(&auth, req, *counter, flags)));
                 let rs = match res { None => "panic".to_string(), Some(Err(e)) => format!("err:{:?}", e),
                     Some(Ok(r)) => { let (p, c, s) = (u8::from(r.user_presence), r.counter, r.signature.clone()); format!("ok:{}:{}:{}:{}", p, c, hexf(&s), hexf(&r.encode())) } };
                 ctx.stat(&format!("u2f.auth.{}", rs.split(':').next().unwrap()));
-                ctx.line(&format!("u2f.auth {} {} {} {} {} {}", hexf(app), hexf(chal), hexf(handle), counter, *presence, param), &format!("res={} store={}", rs, snap_pub(&auth.store().inner.all())));
+                ctx.line(&format!("u2f.auth {} {} {} {} {} {} {}", hexf(app), hexf(chal), hexf(handle), counter, *presence, param, faults_pub(&[*fault])), &format!("res={} store={}", rs, snap_pub(&auth.store().inner.all())));
             }
         }
     }
     ctx.line("au.end", "");
 }
 
-fn run_kind(ctx: &mut Ctx, kind: Kind, ops: &[U]) {
+pub fn run_kind_for(ctx: &mut Ctx, prop: &str, kind: Kind, ops: &[U]) {
     match kind {
-        Kind::Map => run(ctx, kind, MemoryStore::new(), ops),
-        Kind::Slot => run(ctx, kind, None::<Passkey>, ops),
-        _ => run(ctx, Kind::RefFull, RefStore::new(d_full_pub), ops),
+        Kind::Map => run(ctx, prop, kind, MemoryStore::new(), ops),
+        Kind::Slot => run(ctx, prop, kind, None::<Passkey>, ops),
+        _ => run(ctx, prop, Kind::RefFull, RefStore::new(d_full_pub), ops),
+    }
+}
+fn run_kind(ctx: &mut Ctx, kind: Kind, ops: &[U]) { run_kind_for(ctx, "C17", kind, ops) }
+
+/// store failures on the U2F path: every family of status code as the answer to the save / the lookup
+pub fn store_failures(ctx: &mut Ctx, prop: &str) {
+    for kind in [Kind::RefFull, Kind::Map, Kind::Slot] {
+        let mut ops = vec![];
+        let app = ctx.rng.bytes(32);
+        for code in [0x00u8, 0x01, 0x28, 0x2E, 0x7F, 0x30, 0xF2, 0xE5] {
+            let handle = ctx.rng.bytes(16);
+            ops.push(U::Reg { app: app.clone(), chal: ctx.rng.bytes(32), handle: handle.clone(), fault: Some(code) });
+            // nothing was stored: the handle must not authenticate afterwards
+            ops.push(U::Auth { app: app.clone(), chal: ctx.rng.bytes(32), handle: handle.clone(), counter: 1, presence: 1, param: 3, fault: None });
+            ops.push(U::Reg { app: app.clone(), chal: ctx.rng.bytes(32), handle: handle.clone(), fault: None });
+            ops.push(U::Auth { app: app.clone(), chal: ctx.rng.bytes(32), handle: handle.clone(), counter: 2, presence: 1, param: 3, fault: Some(code) });
+            ops.push(U::Auth { app: app.clone(), chal: ctx.rng.bytes(32), handle, counter: 3, presence: 1, param: 3, fault: None });
+            ctx.stat("u2f.store_failure_rounds");
+        }
+        run_kind_for(ctx, prop, kind, &ops);
     }
 }
 
@@ -97,7 +119,7 @@ pub fn gen(ctx: &mut Ctx) {
                 if kind == Kind::Slot { regs.clear(); }
                 regs.retain(|(_, h)| *h != handle || kind == Kind::RefFull);
                 regs.push((app.clone(), handle.clone()));
-                ops.push(U::Reg { app, chal: ctx.rng.bytes(32), handle });
+                ops.push(U::Reg { app, chal: ctx.rng.bytes(32), handle, fault: None });
             } else {
                 let (app, handle) = match ctx.rng.below(5) {
                     0 => (ctx.rng.pick(&apps).clone(), if ctx.rng.bool() { ctx.rng.bytes(16) } else { vec![] }),   // unknown key handle (also the empty one)
@@ -105,12 +127,13 @@ pub fn gen(ctx: &mut Ctx) {
                     _ => ctx.rng.pick(&regs).clone(),
                 };
                 let counter = *ctx.rng.pick(&[0u32, 1, 255, 256, 65536, 1 << 31, u32::MAX, 12345678]);
-                ops.push(U::Auth { app, chal: ctx.rng.bytes(32), handle, counter, presence: *ctx.rng.pick(&[0x01u8, 0x00, 0x05, 0x04, 0x01, 0x1d]), param: *ctx.rng.pick(&[3u8, 7, 8]) });
+                ops.push(U::Auth { app, chal: ctx.rng.bytes(32), handle, counter, presence: *ctx.rng.pick(&[0x01u8, 0x00, 0x05, 0x04, 0x01, 0x1d]), param: *ctx.rng.pick(&[3u8, 7, 8]), fault: None });
             }
         }
         run_kind(ctx, kind, &ops);
         ctx.stat("c17.ceremony_cases");
     }
+    store_failures(ctx, "C17");
     // ---- version and request frames
     ctx.line("u2f.reset", "");
     ctx.line("u2f.ver", &hexf(&Version.encode()));
@@ -121,6 +144,23 @@ pub fn gen(ctx: &mut Ctx) {
             1 => { let hl = *ctx.rng.pick(&[0usize, 1, 16, 64, 128, 255]); let mut d = ctx.rng.bytes(64); d.push(hl as u8); d.extend(ctx.rng.bytes(hl));
                    let p1 = *ctx.rng.pick(&[3u8, 7, 8]); let f = frame(2, p1, &d, &le); parse_line(ctx, &f); }
             _ => { let f = frame(3, 0, &[], &le); parse_line(ctx, &f); }
+        }
+    }
+    // ---- response encodings with every field filled in (the authenticator itself always leaves the certificate empty)
+    for i in 0..(if ctx.thorough { 400 } else { 60 }) {
+        use passkey_types::u2f::{AuthenticationResponse, PublicKey, RegisterResponse};
+        let x = ctx.rng.bytes(32); let y = ctx.rng.bytes(32);
+        let handle = { let n = *ctx.rng.pick(&[0usize, 1, 16, 64, 127, 128, 255]); ctx.rng.bytes(n) };
+        let cert = if i % 4 == 0 { vec![] } else { ctx.rng.bytes_in(1, 300) };
+        let sig = ctx.rng.bytes_in(0, 73);
+        let enc = guarded(|| RegisterResponse { public_key: PublicKey { x: arr32(&x), y: arr32(&y) }, key_handle: handle.clone(), attestation_certificate: cert.clone(), signature: sig.clone() }.encode());
+        ctx.line(&format!("u2f.encreg {} {} {} {} {}", hexf(&x), hexf(&y), hexf(&handle), hexf(&cert), hexf(&sig)), &enc.map(|e| hexf(&e)).unwrap_or("panic".into()));
+        ctx.stat(if cert.is_empty() { "c17.encode.register.no_certificate" } else { "c17.encode.register.certificate" });
+        let counter = match ctx.rng.below(4) { 0 => 0u32, 1 => u32::MAX, 2 => ctx.rng.below(256) as u32, _ => ctx.rng.below(1 << 32) as u32 };
+        for presence in [0u8, 1] {
+            let enc = guarded(|| AuthenticationResponse { user_presence: passkey_types::ctap2::Flags::from_bits_truncate(presence), counter, signature: sig.clone() }.encode());
+            ctx.line(&format!("u2f.encauth {} {} {}", presence, counter, hexf(&sig)), &enc.map(|e| hexf(&e)).unwrap_or("panic".into()));
+            ctx.stat("c17.encode.authenticate");
         }
     }
     ctx.line("u2f.end", "");
